@@ -87,4 +87,4 @@ def body(case):
 
 
 def tests(tier):
-    return [TestSpec("never-raises", lambda f: G.from_gen(gen_case, 2048), body, {"quick": 5000, "thorough": 500000})]
+    return [TestSpec("never-raises", gen_case, body, {"quick": 5000, "thorough": 500000}, tape=2048)]
